@@ -13,7 +13,7 @@ from xdsl.pattern_rewriter import (
     op_type_rewrite_pattern,
 )
 from xdsl.rewriter import InsertPoint
-from xdsl.traits import Pure
+from xdsl.traits import IsTerminator, Pure
 from xdsl.utils.hints import isa
 
 
@@ -98,6 +98,16 @@ class LoopHoistPureOperations(RewritePattern):
                     defined_outside_loop(op),
                     Pure() in op.traits or is_whitelisted(main_op),
                     not isinstance(op, scf.YieldOp),
+                    # a buffer that is handed on to the next iteration, out of the loop or into another loop
+                    # (yielded, or the initial value of a loop-carried value) has to be a new one in every iteration
+                    not (
+                        is_whitelisted(main_op)
+                        and any(
+                            use.operation.has_trait(IsTerminator) or isinstance(use.operation, scf.ForOp | scf.WhileOp)
+                            for r in op.results
+                            for use in r.uses
+                        )
+                    ),
                 ]
             ):
                 return True
